@@ -52,6 +52,8 @@ def order_rel(o1, r1, o2, r2):
 def canon_atoms(sec, atoms):
     """equivalence class representative: sections that are symmetric under reversal"""
     atoms = tuple(atoms)
+    if sec == "exclusions" and len(atoms) > 2:
+        return atoms[:1] + tuple(sorted(atoms[1:]))          # the first atom is excluded from each of the others
     if sec in ("bonds", "pairs", "constraints", "angles", "dihedrals", "impropers", "exclusions"):
         rev = tuple(reversed(atoms))
         return min(atoms, rev)
@@ -121,6 +123,8 @@ def link_res_edges(link):
     labels = defaultdict(list)
     atom_edges = []
     for it in link["inter"]:
+        if link.get("edges_given"):
+            break            # parsed definition: the edge list of the link is complete as it stands
         if it["meta"].get("edge", True) is False:
             continue
         if not link.get("edge_all_sections") and it["sec"] not in EDGE_SECS_FF:
@@ -145,6 +149,23 @@ def link_res_edges(link):
     for k, ls in labels.items():
         out[k] = ls[0] if all(l == ls[0] for l in ls) else None
     return out, {k for k in merged}
+
+
+def _attr_ok(atom, resnode, k, v):
+    """a link atom's extra requirement k = v against the atom as it was copied from its block (atom type, charge,
+    mass, position in the block) or, for anything else, against the attributes given to the residue in the graph"""
+    have = atom[k] if k in ("atype", "charge", "mass", "index") else resnode.get(k)
+    if have is None or isinstance(v, (dict, list, set)):
+        return False
+    if isinstance(v, str) and "|" in v:
+        return have in v.split("|")
+    return have == v
+
+
+def _pat_ok(have, want):
+    if isinstance(want, str) and "|" in want:
+        return have in want.split("|")
+    return have == want
 
 
 # ----------------------------------------------------------------------------- the reference
@@ -192,7 +213,7 @@ def reference(spec, graph):
             g = base + loc + 1
             atoms.append({"idx": g, "name": a["name"], "atype": a["atype"], "resid": by_key[rkey]["resid"],
                           "resname": a["resname"], "cg": a["cg"] + last_cg, "charge": a["charge"],
-                          "mass": a["mass"], "res": rkey, "block": bname, "loc": loc})
+                          "mass": a["mass"], "res": rkey, "block": bname, "loc": loc, "index": a.get("index")})
             res_atoms.setdefault(rkey, []).append(g)
             excl_of[g] = b["nrexcl"]
             block_of[g] = bname
@@ -204,10 +225,15 @@ def reference(spec, graph):
             ga = tuple(base + x + 1 for x in it["atoms"])
             inter.append((it["sec"], ga, tuple(it["params"]), dict(it["meta"]), "block"))
             esecs = None if b.get("edge_all") else EDGE_SECS_FF
+            if "edges_given" in b:
+                continue
             if it["meta"].get("edge", True) is not False and (esecs is None or it["sec"] in esecs):
                 for x, y in zip(ga[:-1], ga[1:]):
                     if x != y:
                         edges.add(frozenset((x, y)))
+        for x, y in b.get("edges_given", ()):
+            if x != y:
+                edges.add(frozenset((base + x + 1, base + y + 1)))
         handled.update(members.values())
 
     # ---- links ---------------------------------------------------------------------------------------------
@@ -220,7 +246,8 @@ def reference(spec, graph):
     replaced = {}    # atom idx -> {attr: value}
     removed = set()
     stats = Counter()
-    live_attr = {a["idx"]: {"atype": a["atype"], "charge": a["charge"], "mass": a["mass"]} for a in atoms}
+    live_attr = {a["idx"]: {"atype": a["atype"], "charge": a["charge"], "mass": a["mass"], "atomname": a["name"],
+                            "resname": a["resname"]} for a in atoms}
     link_keys = set()
     for li, link in enumerate(links):
         latoms = link["atoms"]
@@ -267,7 +294,7 @@ def reference(spec, graph):
                     at = atoms[g - 1]
                     if at["name"] != a["name"]:
                         continue
-                    if "atype" in a["attrs"] and at["atype"] != a["attrs"]["atype"]:
+                    if any(not _attr_ok(at, by_key[res], k, v) for k, v in a["attrs"].items() if k != "resname"):
                         continue
                     if want is not None and at["resname"] not in want.split("|"):
                         continue
@@ -296,7 +323,7 @@ def reference(spec, graph):
             if link["patterns"]:
                 good = False
                 for row in link["patterns"]:
-                    if all(all(live_attr[idx[k]].get(ak) == av for ak, av in at.items()) for k, at in row):
+                    if all(all(_pat_ok(live_attr[idx[k]].get(ak), av) for ak, av in at.items()) for k, at in row):
                         good = True
                 if not good:
                     stats["rej_pattern"] += 1
